@@ -42,7 +42,7 @@ def rejudge(ctx, m, args=None):
     WHEN["suffix"] = "/after-another-mesh-was-built"
     try:
         if isinstance(m, fmesh2d.mesh2d):
-            judge2d(ctx, m, {})
+            judge2d(ctx, m, args or {})
         else:
             kind = type(m).__name__
             judge1d(ctx, m, "mesh1d" if kind == "unimesh" else kind, args or {})
@@ -93,7 +93,9 @@ def judge1d(ctx, m, kind, args):
 def judge2d(ctx, m, args):
     ctx = _KeyCtx(ctx)
     cls = "mesh:2d"
-    nx, ny, lx, ly = m.nx, m.ny, m.lx, m.ly
+    # the sizes the CALLER asked for (constructor arguments), not what the object says about itself
+    nx, ny, lx, ly = (args.get(k, getattr(m, k)) for k in ("nx", "ny", "lx", "ly"))
+    ctx.true("attributes", (m.nx, m.ny) == (nx, ny) and float(m.lx) == float(lx) and float(m.ly) == float(ly), "mesh2d/attributes-not-the-constructor-arguments", {"asked": [nx, ny, lx, ly], "object": [m.nx, m.ny, m.lx, m.ly]}, cls=cls)
     n = nx * ny
     ctx.true("counts", m.ncell == n and m.nbfaces() == (nx + 1) * ny + nx * (ny + 1), "mesh2d/cell-or-face-count", {"ncell": m.ncell, "nbfaces": m.nbfaces()}, cls=cls)
     dx, dy = lx / nx, ly / ny
@@ -147,7 +149,10 @@ def _ctor_after(args, kwargs, result, tok):
     m = args[0]
     ctx = CTX
     if isinstance(m, fmesh2d.mesh2d):
-        judge2d(ctx, m, {})
+        a2 = {"lx": 1.0, "ly": 1.0}
+        a2.update(dict(zip(["nx", "ny", "lx", "ly"], args[1:])))
+        a2.update({k: v for k, v in kwargs.items() if k in ("nx", "ny", "lx", "ly")})
+        judge2d(ctx, m, a2)
         return
     kind = type(m).__name__
     names = {"mesh1d": ["ncell", "length", "x0"], "unimesh": ["ncell", "length", "x0"], "refinedmesh": ["ncell", "length", "ratio", "nratioa", "nratiob"],
@@ -186,7 +191,21 @@ def uniform(ctx, rng, idx):
     n = int(rng.choice([1, 2, 3, int(rng.integers(1, 201))]))
     L = float(10 ** rng.uniform(-3, 3)); x0 = float(rng.choice([0.0, rng.uniform(-1, 1) * 10 ** rng.uniform(-3, 3)]))
     ctx.describe(kind="unimesh", ncell=n, length=L, x0=x0)
-    m = (fmesh.unimesh if idx % 2 else fmesh.mesh1d)(ncell=n, length=L, x0=x0)
+    cls1 = fmesh.unimesh if idx % 2 else fmesh.mesh1d
+    form = int(rng.integers(5))          # keywords, positional, defaults for the omitted arguments, numpy / integer-typed arguments
+    if form == 0:
+        m = cls1(ncell=n, length=L, x0=x0)
+    elif form == 1:
+        m = cls1(n, L, x0)
+    elif form == 2:
+        x0 = 0.0
+        m = cls1(n, length=L)
+    elif form == 3:
+        L, x0 = 1.0, 0.0
+        m = cls1(ncell=n)
+    else:
+        L = float(int(L) + 1); x0 = float(int(x0))
+        m = cls1(np.int64(n), int(L), int(x0))
     fmesh.mesh1d(ncell=n + 3, length=2 * L, x0=x0 - 1.0); fmesh.refinedmesh(ncell=max(2, n), length=3 * L)      # other meshes built afterwards
     rejudge(ctx, m, {"ncell": n, "length": L, "x0": x0})
     ctx.nontrivial("uni", n, L, x0)
@@ -240,9 +259,19 @@ def cartesian(ctx, rng, idx):
     nx, ny = int(rng.integers(1, 13)), int(rng.integers(1, 13))
     lx, ly = float(10 ** rng.uniform(-3, 3)), float(10 ** rng.uniform(-3, 3))
     ctx.describe(kind="mesh2d", nx=nx, ny=ny, lx=lx, ly=ly)
-    m = (fmesh2d.unimesh if idx % 2 else fmesh2d.mesh2d)(nx, ny, lx, ly)
+    cls2 = fmesh2d.unimesh if idx % 2 else fmesh2d.mesh2d
+    form = int(rng.integers(4))          # positional, keywords (any order), default lengths, numpy integers
+    if form == 0:
+        m = cls2(nx, ny, lx, ly)
+    elif form == 1:
+        m = cls2(ly=ly, ny=ny, lx=lx, nx=nx)
+    elif form == 2:
+        lx = ly = 1.0
+        m = cls2(nx, ny)
+    else:
+        m = cls2(np.int64(nx), np.int32(ny), lx, ly)
     fmesh2d.mesh2d(ny + 1, nx + 2, ly * 2, lx); fmesh2d.unimesh(nx, ny + 1, lx, ly)        # other grids built afterwards
-    rejudge(ctx, m)
+    rejudge(ctx, m, {"nx": nx, "ny": ny, "lx": lx, "ly": ly})
     ctx.nontrivial("2d", nx, ny, lx, ly)
 
 
